@@ -14,6 +14,20 @@ CHECKS = {
         technique="TLA+ model checking (TLC) + trace validation of the real decoder against the spec",
         design_ref="6/C01",
     ),
+    "C10": dict(
+        category="model_checking",
+        text=("TLC exhaustively checks the decoder model with max_form_memory_size / max_parts constants for BufBound, "
+              "PartsBound, OnlyTooLarge and GuardPurity over every generator body and schedule; the real decoder, "
+              "MultiPartParser and Request.form/files are then run under limit combinations taken around each body's own "
+              "field sizes, part count and length (v-1, v, v+1, None), with/without CONTENT_LENGTH and wsgi.input_terminated, "
+              "each next to the unlimited reference, and every step is judged by the TLC trace spec (buffer bound after each "
+              "receive, limit enforced, declared-too-large bodies unread, bytes consumed <= maximum, purity)."),
+        note=("Trusted: TLC, trace encoding, harness/mp.py recorders (a counting wsgi.input). A spurious 413 is not a violation. "
+              "For urlencoded bodies max_form_memory_size is required only when CONTENT_LENGTH is present (documented behaviour)."),
+        technique="TLA+ model checking (TLC) + trace validation of decoder/parser/Request runs under limits",
+        design_ref="6/C10",
+    ),
+    # --- END CHECKS (new entries go above this line) ---
 }
 
 
